@@ -39,3 +39,15 @@ PROPS["C11"] = {
                     "path_file_name of a path without separator, are documented ambiguously: every documented reading is accepted"],
     "required_classes": ["pair-exh:match-at-very-end", "pair-exh:empty-needle", "pair-exh:needle-longer", "pair-rand:match-at-very-end", "path-exh:parent-is-root"],
 }
+
+
+# fragments: lib/props.d/<id>.py each define ID and CFG
+import glob as _glob
+import importlib.util as _ilu
+import os as _os
+
+for _f in sorted(_glob.glob(_os.path.join(_os.path.dirname(_os.path.abspath(__file__)), "props.d", "*.py"))):
+    _spec = _ilu.spec_from_file_location("props_" + _os.path.basename(_f)[:-3], _f)
+    _m = _ilu.module_from_spec(_spec)
+    _spec.loader.exec_module(_m)
+    PROPS[_m.ID] = _m.CFG
